@@ -283,6 +283,8 @@ func guardRows(w *World, r *Report, prop string) {
 					// a test of the argument lies on the way that the oracle cannot evaluate:
 					// the exclusion may be enforced in a form the analysis does not interpret
 					r.add("GUARD", key, pos, Undecided, fmt.Sprintf("scenario {%s}: %s, but only past test(s) of the argument the analysis could not evaluate (%s) -- %s", sc, why, abbrev(strings.Join(uniqStrings(e.undecidedOnSubject), "; "), 240), row.Doc))
+				} else if esc := subjectEscapes(f, sc); esc != "" {
+					r.add("GUARD", key, pos, Undecided, fmt.Sprintf("scenario {%s}: %s; but the argument is also handed to %s, whose checks this exploration does not follow -- %s", sc, why, esc, row.Doc))
 				} else {
 					r.add("GUARD", key, pos, Violated, fmt.Sprintf("scenario {%s}: %s -- %s", sc, why, row.Doc))
 				}
@@ -808,6 +810,93 @@ func ruleNoPartial(w *World, r *Report, fn string) {
 // the verdict is Undecided (validated in a form the analysis does not
 // interpret), else Violated (some path validates nothing).
 func (e *scEngine) checkTwoPass(f *ssa.Function, sc scenario) (Status, string) {
+	st, why := e.checkTwoPass0(f, sc)
+	if st == Violated {
+		if esc := subjectEscapes(f, sc); esc != "" {
+			return Undecided, why + "; but the argument is also handed to " + esc + ", whose checks this exploration does not follow"
+		}
+	}
+	return st, why
+}
+
+// subjectEscapes: the scenario's argument is captured by a function literal that
+// is not called on the spot: started with `go`, handed to a helper that runs it
+// (a worker pool, a push iterator), or kept in a variable.  Validation done in
+// there -- recording its failure in a slot or a captured variable that is
+// examined after a Wait -- is invisible to the path exploration.
+func subjectEscapes(f *ssa.Function, sc scenario) string {
+	if sc.Param >= len(f.Params) {
+		return ""
+	}
+	subj := ssa.Value(f.Params[sc.Param])
+	isSubj := func(b ssa.Value) bool {
+		if b == subj || resolve(b) == subj {
+			return true
+		}
+		if al, ok := b.(*ssa.Alloc); ok && al.Referrers() != nil {
+			for _, ref := range *al.Referrers() {
+				if st, ok := ref.(*ssa.Store); ok && st.Addr == ssa.Value(al) && resolve(st.Val) == subj {
+					return true
+				}
+			}
+		}
+		return false
+	}
+	out := ""
+	var scan func(g *ssa.Function, depth int)
+	scan = func(g *ssa.Function, depth int) {
+		if depth > 2 || out != "" {
+			return
+		}
+		instrs(g, func(in ssa.Instruction) {
+			mc, ok := in.(*ssa.MakeClosure)
+			if !ok || out != "" {
+				return
+			}
+			captures := false
+			for _, b := range mc.Bindings {
+				if isSubj(b) {
+					captures = true
+				}
+			}
+			if !captures || mc.Referrers() == nil {
+				return
+			}
+			for _, ref := range *mc.Referrers() {
+				switch x := ref.(type) {
+				case *ssa.Go:
+					out = "a goroutine started at " + g.Prog.Fset.Position(x.Pos()).String()
+				case *ssa.Call:
+					if x.Call.Value != ssa.Value(mc) {
+						for _, a := range x.Call.Args {
+							if a == ssa.Value(mc) {
+								out = "a function literal passed to " + shortInstr(x)
+							}
+						}
+					}
+				case *ssa.MakeClosure:
+					out = "a function literal that another function literal captures (" + g.Prog.Fset.Position(x.Pos()).String() + ")"
+				case *ssa.Store:
+					// kept in a variable cell: shared with other literals (a worker body that the
+					// goroutines and the sequential fallback both call)
+					if al, ok := x.Addr.(*ssa.Alloc); ok && al.Referrers() != nil {
+						for _, r2 := range *al.Referrers() {
+							if _, isMC := r2.(*ssa.MakeClosure); isMC {
+								out = "a function literal kept in a variable that other function literals capture (" + g.Prog.Fset.Position(x.Pos()).String() + ")"
+							}
+						}
+					}
+				case *ssa.Defer:
+				case *ssa.DebugRef:
+				}
+			}
+		})
+	}
+	scan(f, 0)
+	return out
+}
+
+func (e *scEngine) checkTwoPass0(f *ssa.Function, sc scenario) (Status, string) {
 	e.undecidedOnSubject = nil
 	ok, why := e.check(f, sc, 0)
 	if ok {
